@@ -123,10 +123,10 @@ PROPS = {
                           'add_new_sample / save_point / get_final_results keep the NaN-aware best-so-far relations. (ii) Call-site obligation at every '
                           'change_point / geometry_step: the incumbent record is overwritten only on the ratio > 0 path or after it was offered to the saved slot; every other '
                           'replacement targets a new slot (initialisers, growing) or a slot chosen with skip_kopt (contract of choose_point_to_replace).',
-            'level_note': LEDGER_NOTE + ' ' + MODEL_NOTE + ' Numeric assumptions, stated at their call sites and never discharged: A-N1 (the point furthest from xopt is not '
-                          'xopt: check_and_fix_geometry), A-N2 (argsort yields distinct slots with the incumbent first: soft_restart, move_furthest_points[_momentum]), '
+            'level_note': LEDGER_NOTE + ' ' + MODEL_NOTE + ' Numeric assumptions, stated at their call sites and never discharged: A-N1 prime (when check_and_fix_geometry picks the incumbent itself the geometry step re-evaluates '
+                          'the incumbent\'s own point: same value for a deterministic objective; a ghost licence, no state is pruned), A-N2 (argsort yields distinct slots with the incumbent first: soft_restart, move_furthest_points[_momentum]), '
                           'N-ratio (ratio > 0 means the trial point improves on the incumbent). The merge objmin2 < objmin across hard restarts is a float comparison outside domain L.',
-            'not_decided': ['A-N1, A-N2, N-ratio (numeric)', 'init.run_in_parallel=True (known finding D6/D23)']},
+            'not_decided': ['A-N1 prime, A-N2, N-ratio (numeric)', 'init.run_in_parallel=True (known finding D6/D23)']},
     'C08': {'bundles': ['ledger', 'model', 'vecs'], 'level': 'proof',
             'level_text': 'Partial claim: (i) budget/counter proofs hold for arbitrary returned values (residuals are havoc in domain L); (ii) NaN never displaces a '
                           'finite stored/saved value in Model (exact NaN semantics); (iii) the NaN-at-trial-step exit is flagged EXIT_EVAL_ERROR; (v) no try body '
